@@ -32,11 +32,16 @@ type cfg struct {
 	// Always: every attempt meets the same fault until the backend gives up (1: 503, 2: transport error,
 	// 3: 429 with Retry-After) - the end of the retry window must still complete the request, with an error
 	Always int
+	// Parallel: the flush requests are issued together (one per aggregator of one flush) instead of one after the other
+	Parallel bool `json:",omitempty"`
 }
 
 func (c cfg) String() string {
 	if c.Always != 0 {
 		return fmt.Sprintf("%s-s%d-b%d-q%d-always%d-el%v-r%d", c.Kind, c.Series, c.Batch, c.Requests, c.Always, c.Elapsed, c.MaxReq)
+	}
+	if c.Parallel {
+		return fmt.Sprintf("%s-s%d-b%d-q%d-f%d-c%v-el%v-r%d-parallel", c.Kind, c.Series, c.Batch, c.Requests, c.Failures, c.Cancel, c.Elapsed, c.MaxReq)
 	}
 	return fmt.Sprintf("%s-s%d-b%d-q%d-f%d-c%v-el%v-r%d", c.Kind, c.Series, c.Batch, c.Requests, c.Failures, c.Cancel, c.Elapsed, c.MaxReq)
 }
@@ -154,6 +159,16 @@ func body(c cfg, r *run) func(*vsched.Exec) {
 			vsched.GoNamed("backend.Run", func() { b.Run(ctx) })
 		}
 		done := make(chan int, 4)
+		if c.Parallel {
+			// the backend has been running for a while (and may have failed to connect once already) when the
+			// first flush comes
+			vsched.Quiesce("backend-started")
+			if mock.Len() > 0 {
+				vsched.ClockOp(true, "advance-next")
+				mock.AddNext()
+				vsched.Quiesce("backend-retried")
+			}
+		}
 		vsched.GoNamed("flusher", func() {
 			for q := 0; q < c.Requests; q++ {
 				q := q
@@ -165,7 +180,14 @@ func body(c cfg, r *run) func(*vsched.Exec) {
 					r.cbs = append(r.cbs, cbRec{q, append([]error{}, errs...)})
 					vsched.Send(done, q)
 				})
-				vsched.Recv(done) // flushData waits for the callbacks of one flush before the next one
+				if !c.Parallel {
+					vsched.Recv(done) // flushData waits for the callbacks of one flush before the next one
+				}
+			}
+			if c.Parallel {
+				for q := 0; q < c.Requests; q++ {
+					vsched.Recv(done) // ... but the aggregators of one flush call the backend side by side
+				}
 			}
 		})
 		if c.Cancel {
@@ -306,6 +328,8 @@ func configs() []cfg {
 			cs = append(cs, cfg{Kind: k, Series: 2, Requests: 2, Failures: 2, Cancel: true})
 		}
 	}
+	// two requests of one flush in flight together, three transport faults (refused, write error, refused again)
+	cs = append(cs, cfg{Kind: "statsdaemon-tcp", Series: 1, Requests: 2, Failures: 3, Parallel: true}, cfg{Kind: "graphite-tags", Series: 1, Requests: 2, Failures: 3, Parallel: true})
 	// a stream of several datagrams: a write error in the middle, reconnect, and a second write error
 	cs = append(cs, cfg{Kind: "statsdaemon-udp", Series: 170, Requests: 1, Failures: 2})
 	for _, k := range []string{"cloudwatch", "stdout", "null"} {
